@@ -356,20 +356,21 @@ class Engine:
         arr = self.hget(key, z3.ArraySort(Ref, sort_of(t_)))
         self.hset(key, z3.Store(arr, obj.t, val.t))
 
-    def assume_type(self, v, depth=0):
+    def assume_type(self, v, depth=0, with_alloc=True):
         """Well-typedness facts about a value just read from the heap / received from outside."""
         t_ = v.ty
         k = t_.kind
+        al = z3.Select(self.alloc_map(), v.t) if (with_alloc and t_.is_reflike) else z3.BoolVal(True)
         if k == "ref":
-            self.assume(z3.And(v.t != NONE, z3.Select(self.alloc_map(), v.t), self.isinstance_term(v.t, t_.args[0])))
+            self.assume(z3.And(v.t != NONE, al, self.isinstance_term(v.t, t_.args[0])))
         elif k == "opt" and t_.args[0].is_reflike:
             inner = t_.args[0]
             if inner.kind == "ref":
-                self.assume(z3.Or(v.t == NONE, z3.And(z3.Select(self.alloc_map(), v.t), self.isinstance_term(v.t, inner.args[0]))))
+                self.assume(z3.Or(v.t == NONE, z3.And(al, self.isinstance_term(v.t, inner.args[0]))))
             else:
-                self.assume(z3.Or(v.t == NONE, z3.Select(self.alloc_map(), v.t)))
+                self.assume(z3.Or(v.t == NONE, al))
         elif k in ("list", "deque", "set", "dict"):
-            self.assume(z3.And(v.t != NONE, z3.Select(self.alloc_map(), v.t)))
+            self.assume(z3.And(v.t != NONE, al))
         elif k == "seq":
             self.assume(v.t != NONE)
         elif k == "enum":
